@@ -7,3 +7,4 @@ pub mod c04;
 pub mod c05;
 pub mod worst;
 pub mod c06;
+pub mod c08;
